@@ -1010,9 +1010,7 @@ def check(ctx):
                 ctx.disagree('hdr', dict(desc, request=(r['line'] or '')[:3000]), r['model'][:1500], r['impl'][:1500])
             for (kind, what) in r['viol']:
                 if kind == 'crash':
-                    d13 = is_d13(r['hdr'])
-                    ctx.fail('crash-D13' if d13 else 'crash', desc, what + (' (Report-Msgid-Bugs-To value on which urllib.parse.urlparse raises ValueError)' if d13 else ''),
-                             finding='D13' if d13 else None)
+                    ctx.fail('crash', desc, what)
                     ctx.count('crash-in-modelled-methods')
                 else:
                     ctx.fail('rule-' + kind, desc, what)
@@ -1030,25 +1028,8 @@ def check(ctx):
              'non-trivial = distinct non-empty diagnostic list' % (3 if ctx.quick() else 4, n))
 
 
-def is_d13(hdr):
-    import urllib.parse
-    import email.utils
-    if hdr is None:
-        return False
-    for ln in hdr.split('\n'):
-        k, sep, v = ln.partition(':')
-        if sep and k == 'Report-Msgid-Bugs-To':
-            v = v.strip(' \t')
-            if '@' not in email.utils.parseaddr(v)[1]:
-                try:
-                    urllib.parse.urlparse(v)
-                except ValueError:
-                    return True
-    return False
-
-
 def corpus_cases(start):
-    """fixed cases that are always run: the pogen base header in every kind, D13, boundary shapes"""
+    """fixed cases that are always run: the pogen base header in every kind, a value urlparse rejects (former D13), boundary shapes"""
     out = []
     base = ''.join('%s: %s\n' % kv for kv in pogen.base_header())
     i = start
